@@ -232,3 +232,35 @@ func H_C06_accept_order() {
 	}
 	cover("ordered")
 }
+
+// H_C06_order_after_drop: four subscribed plugins (indices 10, 20, 30, 40); the plugin at an arbitrary
+// position fails fatally (connection closed) during the first request of kind k and is dropped; the second
+// request reaches the three remaining plugins, each once, still in index order.
+//verif:property C06
+//verif:instances 14
+//verif:preempt 0
+//verif:expect-cover ordered
+func H_C06_order_after_drop() {
+	r, w, eps := newEnvAdaptation([]string{"10", "20", "30", "40"}, []EventMask{ValidEvents, ValidEvents, ValidEvents, ValidEvents})
+	pos := choose(4)
+	shape("pos=" + itoa(pos))
+	eps[pos].fail = errClosed
+	k := instance()
+	_, _, err := issue(r, k)
+	vassert(err == nil, "fatal-plugin-error-failed-the-request")
+	eps[pos].fail = errNone
+	n0 := len(w.trace)
+	k2 := choose(2) * 9 // a state change or a container creation
+	_, _, err = issue(r, k2)
+	vassert(err == nil, "request-error")
+	next := 0
+	seen := 0
+	for _, c := range w.trace[n0:] {
+		vassert(c.plugin != pos, "dropped-plugin-invoked")
+		vassert(c.plugin >= next, "invocation-order-differs-from-index-order")
+		next = c.plugin + 1
+		seen++
+	}
+	vassert(seen == 3, "remaining-plugins-not-invoked-exactly-once")
+	cover("ordered")
+}
